@@ -121,3 +121,25 @@ PROPS.update({
         level_text="Proof over every sequence of appends, offset saves, kills (between or during an operation, the in-flight statement committed or not), clean closes and reopenings: positions are gap-free 1..n in order; every acknowledged event is in the log with its acknowledged offset, in acknowledgement order; an acknowledged saved offset is what LoadOffset returns until a later save of that id; new appends get larger offsets than everything before; opening an existing database is idempotent and never touches the rows. The assumptions about SQLite itself are sampled by real SIGKILLs and judged with the model's own predicate.",
         level_note="PARTIAL: durability across process death is an assumption about database/sql + modernc SQLite that the theorems rest on and the kill harness samples (25 kill histories quick, 900 thorough); it is not proved. Trusted: Lean kernel + 3 standard axioms; the harness."),
 })
+
+CONC_TB = ["goroutine scheduling = arbitrary interleaving at yield points (API call, filter, handler entry/exit, and the verifYield hook points after every lock release and before every blocking call); what happens between two yield points of one goroutine is atomic in the model and is made atomic on the implementation by the controlled scheduler",
+           "races INSIDE a critical section and the Go memory model are outside this model (C03)", "handler bodies: publish events of a leaf type; no subscribe/unsubscribe from handlers in this model (that is M1's business)",
+           "sync.Mutex / sync.Cond semantics of the Go runtime"]
+
+def _conc(prop, text, note, rule):
+    return dict(module="Ebu.Props." + prop, ready=True, level_text=text, level_note=note, rule=rule,
+                parts=[dict(name="conc" + prop, domain="conc", domain_module="conc", gen=conc.make_gen(prop), n_quick=400, n_thorough=12000, chunk=32)],
+                trusted_base=CONC_TB, assumptions=COMMON_ASSUME,
+                technique="Lean 4 invariants over an interleaving model (every program, thread count, schedule), tied to /repo by forcing real goroutines through model-chosen schedules (controlled scheduler over verif hook points, with blocked-probes)")
+
+CONC_RULE = "2-4 program threads with 2-6 operations each (subscribe with every Once/Async/Sequential/filter combination and bodies that publish further events, unsubscribe, clear, publish with background or shared cancellable contexts, cancel, wait, count) on 1-2 shared event types; the model picks a schedule with a seeded PRNG (step = one goroutine from yield point to yield point) and, with probability 0-40%, probes a goroutine it considers blocked (sequential mutex, ticket turn, Wait); the harness forces the real goroutines through that schedule and both sides print what every step makes observable; "
+PROPS.update({
+    "C02": _conc("C02", "Proof for every reachable state of the interleaving model: no subscription is lost or duplicated (registrations + removals = subscriptions, identities unique); a publish snapshots exactly the current registrations of its type; every activation only dispatches what is left of its own snapshot (each entry at most once, in order, right type); plus the once and sequential invariants shared with C04/C07. The real-time clauses of the property follow because subscribe, removal and snapshot are single atomic steps between the call and the return of their API call.",
+                 "Trusted: Lean kernel + 3 standard axioms; the controlled scheduler of the harness; " + CONC_TB[0], CONC_RULE + "non-trivial = at least two threads stepped and a handler ran"),
+    "C04": _conc("C04", "Proof for every schedule: the handler of a Once registration is entered at most once in the life of the bus, and only after its compare-and-swap succeeded; a delivery step whose filter rejects the event, or that finds the context cancelled, does not consume the registration. (Sequential re-entrant histories: M1's dead_publish_inert / deliver_rejected_inert / once_retired_after_run, C08/C05.)",
+                 "Trusted: as C02. 'Exactly once when eligible' is proved in the sequential model (publish_complete: claimed ⇒ executed; once_retired_after_run) and sampled under schedules; the residual window 'claimed, then cancelled before the handler started' is the property's own 'context stays live' condition.", CONC_RULE + "non-trivial = a once claim happened"),
+    "C06": _conc("C06", "Proof for every schedule: the in-flight counter equals the number of async goroutines that exist and are not finished plus those a publisher has counted in but not yet started (the add happens in the publisher, before the goroutine exists); hence Wait can only return in a state with no unfinished async invocation at all – whoever published it, handlers publishing from handlers included.",
+                 "Trusted: as C02. Shutdown (nil only after Wait, store closed only then, ctx error ⇒ store not closed) is not in the model: not claimed by a theorem, covered by no correspondence yet – PARTIAL for the Shutdown sentence of the property.", CONC_RULE + "non-trivial = goroutines were spawned and a Wait was probed or finished"),
+    "C07": _conc("C07", "Proof for every schedule: at most one activation is inside a Sequential registration, exactly when its mutex is held; for Async+Sequential registrations tickets are handed out 0,1,2,… in dispatch order and turns are taken 0,1,2,… in that same order, so events published one after another by one goroutine are processed in publish order (the ticket lock added by the fix: commit).",
+                 "Trusted: as C02.", CONC_RULE + "non-trivial = a goroutine reached the sequential mutex or a ticket turn"),
+})
